@@ -38,17 +38,35 @@ def run(ctx):
     r = ctx.rule("R-SHAPE-DOC", "serializer terms and deserializer accept maps equal the documented ones")
     got = ss.serializer_terms(serde, lexpr)
     r.floor("serializer-methods", len(got))
+    # a documented method is the method of that trait: the type that implements it may be renamed or shared
+    slot = lambda k: re.sub(r"^<.* as ", "<_ as ", k)
+    by_slot = {}
+    for k in got:
+        by_slot.setdefault(slot(k), []).append(k)
+    matched = set()
     for k, ent in sorted(table["serializer"].items()):
         g = got.get(k)
+        if g is None and k.startswith("<") and len(by_slot.get(slot(k), [])) == 1 and by_slot[slot(k)][0] not in table["serializer"]:
+            k2 = by_slot[slot(k)][0]
+            g = got[k2]
+            matched.add(k2)
+            if serde.fn(k) is None:
+                k = k2
+        ctor = k.startswith(ss.SER) and k[len(ss.SER):] in ss.COMPOUND_CTOR.values()
         if g is None:
             r.violation(k, "method-missing", "serializer method %s no longer exists" % k)
+        elif ctor and _norm(g) != _norm(ent["term"]) and re.match(r"^Ok\([\w:]+\(.*\)\)$", g) and "empty-vec" in g \
+                and "ser(" not in g and "push" not in g and " | " not in g:
+            # the constructor of a compound serializer only sets up a private collector (which private type, with which
+            # fields, is not a documented shape): an empty element buffer, nothing serialized yet
+            r.ok("%s sets up an empty collector: %s  [%s]" % (k.split(">::")[-1], g, ent["doc"]), serde.fn(k))
         elif _norm(g) == _norm(ent["term"]):
             r.ok("%s = %s  [%s]" % (k.split(">::")[-1], g, ent["doc"]), serde.fn(k))
         else:
             r.violation("serde_lexpr::" + k, "shape",
                         "%s now produces `%s`; the documented shape (%s) is `%s`" % (k, g, ent["doc"], ent["term"]),
                         serde.fn(k).loc() if serde.fn(k) else None)
-    for k in sorted(set(got) - set(table["serializer"])):
+    for k in sorted(set(got) - set(table["serializer"]) - matched):
         r.violation("serde_lexpr::" + k, "undocumented-method", "serializer method %s has no documented shape recorded" % k)
     acc = ss.deserializer_accepts(serde, lexpr)
     r.floor("deserializer-methods", len(acc))
